@@ -89,6 +89,8 @@ def materialize(scn: dict[str, Any]) -> tuple[list[bytes], list[bytes]]:
         return msgs, [L.ref_encode(m) for m in msgs]
     if src.startswith("client:"):  # written by the real transport.write() of that kind
         return msgs, emit_cached(src.split(":")[1], msgs)
+    if src.startswith("client2:"):  # written by two concurrent tasks through one real transport
+        return L.emit_client_concurrent(src.split(":")[1], msgs)
     if src.startswith("server:"):  # the replies the real server loop wrote for these requests
         wk = src.split(":")[1]
         up = L.run_reader("server", msgs, emit_cached(wk, msgs), [tuple(op) for op in scn["up_plan"]], [0], "feeder")
@@ -394,7 +396,7 @@ def sig_of(res: dict[str, Any]) -> dict[str, Any]:
         else "LinesTransportMixin.read"
     feat = res.get("feat") or {}
     src = (res.get("scn") or {}).get("src", "ref")
-    sender = {"ref": "reference-encoder", "client": "LinesTransportMixin.write", "server": "handle_client-reply"}[src.split(":")[0]]
+    sender = {"ref": "reference-encoder", "client": "LinesTransportMixin.write", "client2": "LinesTransportMixin.write (two tasks)", "server": "handle_client-reply"}[src.split(":")[0]]
     if kind.startswith("real-e2e"):
         sender = "LinesTransportMixin.write" if kind.endswith("-up") else "handle_client-reply"
     return {"reader": reader, "sender": sender, "transport": "unix-lines" if "unix" in base else "tcp-lines",
@@ -737,6 +739,16 @@ def drive_enumerated(rep: Report, tier: str, seed: int) -> tuple[list[dict[str, 
     for wk in L.CLIENT_KINDS:
         scns += short_scenarios("server", SHORT_SETS[0], f"client:{wk}", tier, with_allseg=False, lean=tier == "quick")
         scns += short_scenarios(wk, SHORT_SETS[0], f"server:{wk}", tier, with_allseg=False, lean=tier == "quick")
+    # two tasks of the caller writing to one transport at the same time (long and short messages)
+    big_a = bytes((i * 5 + 1) & 0xFF for i in range(2000))
+    big_c = bytes((i * 11 + 3) & 0xFF for i in range(1300))
+    for wk in L.CLIENT_KINDS:
+        cm = [big_a, b"\x3e\x80", big_c, b"\x10\x03", b"\x22\xf1\x90", big_a[:600]]
+        base = {"kind": "server", "msgs": [m.hex() for m in cm], "src": f"client2:{wk}", "fam": "concurrent-writers"}
+        _c, chs = materialize({**base, "plan": [], "policy": [0]})
+        nb = sum(len(c) for c in chs)
+        scns.append({**base, "plan": [["F", nb], ["Z"], ["E"]], "policy": [0], "lead": "feeder"})
+        scns.append({**base, "plan": [["F", 1000], ["Z"], ["F", nb], ["Z"], ["E"]], "policy": [0], "lead": "reader"})
     n_short = len(scns)
     scns += long_scenarios(tier, seed)
     results = [execute(s) for s in scns]
